@@ -11,4 +11,5 @@ def run(ck):
     status.r19_6_op_reduction(ck, P)
     status.r_byte_budget(ck, P, 'C19-R7', tail=True)
     status.r_fill_word(ck, P, 'C19-R8')
+    status.r19_9_delegated_rectangle(ck, P)
     geometry.r2_raw_writers_bounded(ck, P, rows=False)
